@@ -37,6 +37,9 @@ def jobs(pid, tier, seed):
         out.append({"kind": "classifier"})
     if pid == "C16":
         out += [{"kind": "crashimg", "seed": seed * 1000 + i} for i in range(16 if tier == "quick" else 200)]
+    if pid in ("C01", "C02"):
+        out += [{"kind": "lazy", "n": n} for n in (0, 1, 2, 99, 100, 101, 250, 520)]
+        out += [{"kind": "lazy", "seed": seed * 1000003 + 700000 + i} for i in range(200 if tier == "quick" else 4000)]
     if pid in ("C02", "C17"):
         # the real process over real TCP: an add processed while a subscriber's closing handshake is under way
         orders = [("A", "B", "C"), ("B", "A", "C"), ("C", "B", "A"), ("A", "B")]
@@ -182,6 +185,83 @@ def run_wire_closing(pid, job, acc):
                                          "detail": {"problems": problems, "observed": observed}, "step": None}})
 
 
+class DupMonitor(object):
+    """Exactly-once, the "at most once" half, independent of *when* the server sends: no connection is ever sent the
+    same message (side, phase, body, id, server_rx; bodies are unique per add) twice.  Used in lazy-pump runs, where
+    work the server defers to a later reactor turn runs only after the next command has been processed."""
+    def __init__(self):
+        from collections import Counter
+        self.seen = {}
+        self.dups = []
+        self.C = Counter
+
+    def on_begin(self, world, st):
+        pass
+
+    def on_step(self, world, st):
+        pass
+
+    def on_frame(self, world, st, conn, frame):
+        if frame.get("type") != "message":
+            return
+        k = (frame.get("side"), frame.get("phase"), frame.get("body"), frame.get("id"), frame.get("server_rx"))
+        c = self.seen.setdefault(conn, self.C())
+        c[k] += 1
+        if c[k] == 2:
+            self.dups.append({"conn": conn, "message": list(k), "step": st.i if st is not None else None})
+
+
+def run_lazy(pid, job, acc):
+    """Histories executed with deferred work (reactor.callLater) run one command late."""
+    from ..scenarios import HB
+    if job.get("n") is not None:
+        b = HB()
+        b.tag = "lz"
+        a = b.conn("app", "s1")
+        b.send(a, type="open", mailbox="lz")
+        for i in range(job["n"]):
+            b.add(a, "%d" % i)
+        y = b.conn("app", "s2")
+        b.send(y, type="open", mailbox="lz")
+        b.drop(a)
+        x = b.conn("app", "s1")
+        b.send(x, type="open", mailbox="lz")
+        b.add(y, "live1")
+        b.add(y, "live2")
+        b.send(x, type="ping", ping=1)
+        b.add(x, "live3")
+        b.send(y, type="ping", ping=2)
+        b.send(x, type="ping", ping=3)
+        hist, seed, case = b.h, job["n"], "lazy:n=%d" % job["n"]
+        cfg = Config(usage=bool(job["n"] % 2))
+    else:
+        seed = job["seed"]
+        hist = generate(seed, **dict(PROFILES[pid]["gen"], closings=False))
+        cfg = cfg_for(seed)
+        case = "lazy:%d" % seed
+    mon = DupMonitor()
+    ex = Exec(cfg, seed=seed, track=False, monitors=[mon])
+    try:
+        ex.world.pump_mode = "lazy"
+        ex.run(hist)
+        for _ in range(3):
+            ex.world._pump()
+        acc.cases += 1
+        acc.ev["lazy_history"] += 1
+        acc.ev["lazy_message_frames"] += sum(sum(c.values()) for c in mon.seen.values())
+        acc.extra["deferred_calls_run"] += ex.world.counters["deferred_calls_run"]
+        acc.steps += ex.world.counters["steps"]
+        acc.frames += ex.world.counters["frames"]
+        acc.distinct.add(hhash(hist))
+        excs = [s.brief() for s in ex.world.steps if s.exc and s.kind == "turn"]
+        if mon.dups or excs:
+            acc.add_violation({"property": pid, "kind": "lazy", "case": case, "job": job, "cfg": cfg.to_json(), "seed": seed, "history": hist,
+                               "violation": {"props": ["C02", "C01"], "kind": "a connection was sent the same message twice (deferred work run one command late)"
+                                             if mon.dups else "deferred work failed", "detail": {"duplicates": mon.dups[:3], "failures": excs[:2]}, "step": None}})
+    finally:
+        ex.close()
+
+
 def new_workdir_root():
     from ..engine import scratch_root
     return scratch_root()
@@ -190,6 +270,8 @@ def new_workdir_root():
 def run_job(pid, job, acc):
     if job["kind"] == "wire_closing":
         return run_wire_closing(pid, job, acc)
+    if job["kind"] == "lazy":
+        return run_lazy(pid, job, acc)
     if job["kind"] == "classifier":
         return run_classifier_product(acc)
     if job["kind"] == "crashimg":
@@ -210,6 +292,10 @@ def replay(pid, rep):
     if rep.get("kind") == "wire_closing":
         acc = Acc(pid)
         run_wire_closing(pid, rep["job"], acc)
+        return acc
+    if rep.get("kind") == "lazy":
+        acc = Acc(pid)
+        run_lazy(pid, rep["job"], acc)
         return acc
     if rep.get("kind") == "classifier":
         acc = Acc(pid)
